@@ -26,6 +26,7 @@ type Node struct {
 	Data  []byte
 	Mtime int64 // seconds
 	Mode  fs.FileMode
+	Link  string // non-empty: a symbolic link to this absolute path (only as the last path component)
 }
 
 type handle struct {
@@ -137,6 +138,24 @@ func (f *FS) missing(path string) error {
 	return syscall.ENOENT
 }
 
+// follow resolves a symbolic link in the last component (as stat/open do).
+func (f *FS) follow(path string) string {
+	for i := 0; i < 8; i++ {
+		n := f.Nodes[path]
+		if n == nil || n.Link == "" {
+			return path
+		}
+		path = n.Link
+	}
+	return path
+}
+
+// PutSymlink places a symbolic link (harness set-up).
+func (f *FS) PutSymlink(path, target string) {
+	f.MkdirAllP(parent(path))
+	f.Nodes[path] = &Node{Link: target, Mode: fs.ModeSymlink | 0o777, Mtime: 1}
+}
+
 func pathErr(op, path string, err error) error {
 	return &fs.PathError{Op: op, Path: path, Err: err}
 }
@@ -221,9 +240,22 @@ func Stat(name string) (fs.FileInfo, error) {
 	if err, _ := f.step("stat", name); err != nil {
 		return nil, err
 	}
+	n := f.Nodes[f.follow(name)]
+	if n == nil || n.Link != "" {
+		return nil, pathErr("stat", name, f.missing(f.follow(name)))
+	}
+	return infoOf(name, n), nil
+}
+
+// Lstat does not follow a symbolic link in the last component.
+func Lstat(name string) (fs.FileInfo, error) {
+	f := Cur
+	if err, _ := f.step("lstat", name); err != nil {
+		return nil, err
+	}
 	n := f.Nodes[name]
 	if n == nil {
-		return nil, pathErr("stat", name, f.missing(name))
+		return nil, pathErr("lstat", name, f.missing(name))
 	}
 	return infoOf(name, n), nil
 }
@@ -233,6 +265,16 @@ func OpenFile(name string, flag int, perm fs.FileMode) (*os.File, error) {
 	err, live := f.step("open", name)
 	if err != nil {
 		return nil, err
+	}
+	if ln := f.Nodes[name]; ln != nil && ln.Link != "" {
+		// O_CREATE|O_EXCL never follows a link; everything else opens (or creates) the target
+		if flag&os.O_CREATE != 0 && flag&os.O_EXCL != 0 {
+			return nil, pathErr("open", name, syscall.EEXIST)
+		}
+		name = f.follow(name)
+		if t := f.Nodes[name]; t != nil && t.Link != "" {
+			return nil, pathErr("open", name, syscall.ELOOP)
+		}
 	}
 	n := f.Nodes[name]
 	if n == nil {
@@ -282,6 +324,7 @@ func ReadFile(name string) ([]byte, error) {
 	if err, _ := f.step("readfile", name); err != nil {
 		return nil, err
 	}
+	name = f.follow(name)
 	n := f.Nodes[name]
 	if n == nil {
 		return nil, pathErr("open", name, f.missing(name))
@@ -899,7 +942,26 @@ func EvalSymlinks(path string) (string, error) {
 }
 
 func Symlink(oldname, newname string) error {
-	return &os.LinkError{Op: "symlink", Old: oldname, New: newname, Err: syscall.EPERM}
+	f := Cur
+	err, live := f.step("symlink", newname)
+	if err != nil {
+		return err
+	}
+	if f.Nodes[newname] != nil {
+		return &os.LinkError{Op: "symlink", Old: oldname, New: newname, Err: syscall.EEXIST}
+	}
+	p := f.Nodes[parent(newname)]
+	if p == nil || !p.Dir {
+		return &os.LinkError{Op: "symlink", Old: oldname, New: newname, Err: f.missing(newname)}
+	}
+	if !strings.HasPrefix(oldname, "/") {
+		oldname = parent(newname) + "/" + oldname // (only plain relative names: no ".." resolution)
+	}
+	if live {
+		f.Nodes[newname] = &Node{Link: oldname, Mode: fs.ModeSymlink | 0o777, Mtime: f.now()}
+		f.mutated("symlink", newname)
+	}
+	return nil
 }
 
 func Getwd() (string, error) { return "/", nil }
@@ -995,7 +1057,7 @@ func (f *FS) LastFD() int { return f.nextFD - 1 }
 //	var VerifStubs = vfs.Stubs
 var Stubs = map[string]any{
 	"stub:os.Stat":                    Stat,
-	"stub:os.Lstat":                   Stat,
+	"stub:os.Lstat":                   Lstat,
 	"stub:os.Open":                    Open,
 	"stub:os.OpenFile":                OpenFile,
 	"stub:os.Create":                  Create,
